@@ -5,6 +5,16 @@ HERE = os.path.dirname(os.path.abspath(__file__))
 BASELINE = "cd /repo && /venv/bin/python -m pytest -ra -q -p no:cacheprovider --timeout=900 --continue-on-collection-errors"
 
 CLAIMED = {
+ "C06": {
+  "text": "Proved (complete, loop-free, bit-precise in z3's FP/BV theories): every instantiation of the comparators sort_order_{ascending,descending}<T> and argsort_order_*<T> of awkward_sort.cpp / awkward_argsort.cpp is a strict weak order (the precondition std::sort needs), equals the integer order for integer T, and puts NaN first in both directions for float/double. Proved by the kernel engine: sorting_ranges(_length), rearrange_shifted, local_preparenext, unique, subrange_equal, unique_strings are memory-safe under their contracts and equal to their definitions where one exists. BOUNDED only (not proved): the sorting cores awkward_sort/argsort/quick_sort and the string sorts are run on every small input of a stated domain against an oracle (sorted permutation per segment, NaN first, stability, local positions).",
+  "ref": "DESIGN.md section 5 (C06)",
+  "note": "Trusted: std::sort/std::stable_sort contracts; the bounded stand-ins are exploration, not proof; re-insertion of missing values in option nodes is glue.",
+  "technique": "contract-based deductive verification (comparators: complete SMT proofs; helper kernels: VC generator) plus bounded exhaustive stand-ins of the compiled sorting kernels"},
+ "C07": {
+  "text": "Proved by the kernel engine: awkward_ListArray_combinations_length (all widths) is memory-safe under its contract. BOUNDED only (not proved): combinations_length against math.comb and the fill kernels awkward_ListArray*_combinations_64 / awkward_RegularArray_combinations_64 against itertools.combinations(_with_replacement) -- exact tuples, order and per-list counts -- for every size vector of up to 3 lists (sizes 0..4 quick, 0..6 thorough), n in 1..4, with/without replacement, contiguous/gapped/reversed starts and all index widths. ak.cartesian (Python) is NOT covered.",
+  "ref": "DESIGN.md section 5 (C07)",
+  "note": "The enumeration kernels use a recursive helper over T** and are outside the translator; the closed-form count is not proved in this round. Bounded stand-ins are exploration, not proof.",
+  "technique": "contract-based deductive verification of the length kernel's safety plus bounded exhaustive stand-ins of the compiled combinations kernels against itertools"},
  "C18": {
   "text": "Only the partition arithmetic is under contract: IrregularlyPartitionedArray::partitionid_index_at maps every global position to the first partition containing it and the right local index (sentinels for negative / past-the-end positions), start/stop, PartitionedArray::getitem_at wraps and bounds-checks exactly like Python, and the range regularisation it shares with slicing (awkward_regularize_rangeslice == CPython slice adjustment). VirtualArray caches/generators, getitem_range across partitions, repartition and partition.py are NOT covered.",
   "ref": "DESIGN.md section 5 (C18)",
